@@ -5,6 +5,7 @@ CONSTANTS
   TypesC <- TypesAll
   Depth = "core"
   FieldSet = "core"
+  Entries <- EntriesUntrusted
   MaxOps = 1
   Heavy <- NoOps
   HeavyAfter <- NoOps
